@@ -61,6 +61,8 @@ func EvalMainModule(vm *r.VM, program *syntax.Program, varInputs r.ElementMap) (
 func evalProgram(vm *r.VM, program *syntax.Program, varInputs r.ElementMap) (r.Element, error) {
 	// 1. import libs
 	for _, importStmt := range program.ImportBlock {
+		// an error while loading the module arises at the line of this 导入 statement
+		vm.SetCurrentLine(importStmt.GetCurrentLine())
 		if err := evalImportStmt(vm, importStmt); err != nil {
 			return nil, err
 		}
@@ -137,11 +139,13 @@ func evalStmtBlock(vm *r.VM, stmtBlock *syntax.StmtBlock) (r.Element, error) {
 	for _, stmtX := range stmtBlock.Children {
 		switch v := stmtX.(type) {
 		case *syntax.ClassDeclareStmt:
-			// declare class
+			// declare class (a failing property initialiser is reported at the declaration)
+			vm.SetCurrentLine(v.GetCurrentLine())
 			if err := evalClassDeclareStmt(vm, v); err != nil {
 				return nil, err
 			}
 		case *syntax.FunctionDeclareStmt:
+			vm.SetCurrentLine(v.GetCurrentLine())
 			if v.DeclareType == syntax.DeclareTypeConstructor {
 				if err := evalConstructorDeclareStmt(vm, v); err != nil {
 					return nil, err
@@ -416,6 +420,9 @@ func evalConstructorDeclareStmt(vm *r.VM, node *syntax.FunctionDeclareStmt) erro
 	constructorLogic := func(instance r.Element, elems []r.Element) (r.Element, error) {
 		// set "this" value
 		vm.PushCallFrame(r.NewFunctionCallFrame(module, instance))
+		// until the first statement runs, the call is at the line of the declaration
+		// (e.g. a wrong number of arguments is reported there)
+		vm.SetCurrentLine(node.GetCurrentLine())
 
 		if _, err := evalExecBlock(vm, node.ExecBlock, elems); err != nil {
 			if isLoopSignal(err) {
